@@ -14,6 +14,8 @@ Data regenerated from the current source (fail-closed `ast` walkers):
   annotation_generic_raises   whether _Visitor.generic_visit raises
   expr_kinds                  the expression node kinds of this Python's `ast`
                               (data from the running interpreter)
+  show_error_subscripts       every `lines[...]` of BaseNodeVisitor.show_error with its guard,
+  show_error_context_bounds   the bounds of the context loop, CONTEXT_LINES (pins Total/Emit.v)
 """
 from __future__ import annotations
 
@@ -191,6 +193,171 @@ def annotation_visitor(repo):
     return methods, generic_raises
 
 
+def show_error_shape(repo):
+    """Every `lines[<index>]` evaluated by BaseNodeVisitor.show_error, in source
+    order, as (index text, test of the enclosing conditional expression whose
+    body holds the subscript, or ""), the two bounds of the context loop and
+    CONTEXT_LINES.  The Emit model is written for exactly this shape."""
+    tree = _parse(repo, "node_visitor.py")
+    cls = _find(tree, ast.ClassDef, "BaseNodeVisitor")
+    fn = None
+    ctx_lines = None
+    for st in cls.body:
+        if isinstance(st, ast.FunctionDef) and st.name == "show_error":
+            fn = st
+        if isinstance(st, ast.AnnAssign) and isinstance(st.target, ast.Name) and st.target.id == "CONTEXT_LINES":
+            if isinstance(st.value, ast.Constant) and isinstance(st.value.value, int):
+                ctx_lines = st.value.value
+        if isinstance(st, ast.Assign) and len(st.targets) == 1 and isinstance(st.targets[0], ast.Name) \
+                and st.targets[0].id == "CONTEXT_LINES" and isinstance(st.value, ast.Constant):
+            ctx_lines = st.value.value
+    if fn is None or ctx_lines is None:
+        raise TranslateError("node_visitor.py: show_error / CONTEXT_LINES not found")
+    parents = {}
+    for n in ast.walk(fn):
+        for c in ast.iter_child_nodes(n):
+            parents[c] = n
+    subs = []
+    for n in ast.walk(fn):
+        if isinstance(n, ast.Subscript) and isinstance(n.value, ast.Name) and n.value.id == "lines" and isinstance(n.ctx, ast.Load):
+            guard = ""
+            c = n
+            while c in parents:
+                p = parents[c]
+                if isinstance(p, ast.IfExp) and p.body is c:
+                    guard = ast.unparse(p.test)
+                    break
+                if isinstance(p, ast.stmt):
+                    break
+                c = p
+            subs.append((n.lineno, n.col_offset, ast.unparse(n.slice), guard))
+    subs.sort()
+    bounds = {}
+    for n in ast.walk(fn):
+        if isinstance(n, ast.Assign) and len(n.targets) == 1 and isinstance(n.targets[0], ast.Name) \
+                and n.targets[0].id in ("min_line", "max_line"):
+            bounds[n.targets[0].id] = ast.unparse(n.value)
+    if set(bounds) != {"min_line", "max_line"}:
+        raise TranslateError("node_visitor.py: context loop bounds not found")
+    return [(i, g) for _, _, i, g in subs], (bounds["min_line"], bounds["max_line"]), ctx_lines
+
+
+def _enum_tests(test):
+    """`S is E.m`, `S == E.m`, or an `or` of such with the same S and E -> (S, E, [m...]); else None"""
+    if isinstance(test, ast.BoolOp) and isinstance(test.op, ast.Or):
+        parts = [_enum_tests(v) for v in test.values]
+        if any(p is None for p in parts) or len({(p[0], p[1]) for p in parts}) != 1:
+            return None
+        return parts[0][0], parts[0][1], [m for p in parts for m in p[2]]
+    if isinstance(test, ast.Compare) and len(test.ops) == 1 and isinstance(test.ops[0], (ast.Is, ast.Eq)):
+        rhs = test.comparators[0]
+        if isinstance(rhs, ast.Attribute) and isinstance(rhs.value, ast.Name):
+            return ast.unparse(test.left), rhs.value.id, [rhs.attr]
+    return None
+
+
+def enum_chains(repo):
+    """Every if/elif chain of the package whose tests all compare ONE subject with members of
+    ONE enum and whose else branch raises / asserts False; and the members of those enums."""
+    base = Path(repo) / "pyanalyze"
+    enums, chains = {}, []
+    trees = []
+    for p in sorted(base.glob("*.py")):
+        if p.name.startswith("test_") or p.name in ("tests.py", "conftest.py"):
+            continue
+        trees.append((p.name, ast.parse(p.read_text())))
+    for fname, tree in trees:
+        for n in ast.walk(tree):
+            if isinstance(n, ast.ClassDef) and any((isinstance(b, ast.Attribute) and b.attr in ("Enum", "IntEnum")) or
+                                                    (isinstance(b, ast.Name) and b.id in ("Enum", "IntEnum")) for b in n.bases):
+                members = [st.targets[0].id for st in n.body
+                           if isinstance(st, ast.Assign) and len(st.targets) == 1 and isinstance(st.targets[0], ast.Name)
+                           and not st.targets[0].id.startswith("_")]
+                enums[n.name] = members
+    for fname, tree in trees:
+        parents = {}
+        for n in ast.walk(tree):
+            for c in ast.iter_child_nodes(n):
+                parents[c] = n
+        for n in ast.walk(tree):
+            if not isinstance(n, ast.If):
+                continue
+            par = parents.get(n)
+            if isinstance(par, ast.If) and par.orelse == [n]:
+                continue
+            node, tests = n, []
+            while True:
+                tests.append(node.test)
+                if len(node.orelse) == 1 and isinstance(node.orelse[0], ast.If):
+                    node = node.orelse[0]
+                    continue
+                break
+            if not _is_raise(node.orelse):
+                continue
+            parsed = [_enum_tests(t) for t in tests]
+            if any(p is None for p in parsed) or len({(p[0], p[1]) for p in parsed}) != 1:
+                continue
+            subj, enum = parsed[0][0], parsed[0][1]
+            if enum not in enums:
+                continue
+            fn = n
+            while fn in parents and not isinstance(fn, (ast.FunctionDef, ast.AsyncFunctionDef)):
+                fn = parents[fn]
+            chains.append((fname, getattr(fn, "name", "<module>"), subj, enum, [m for p in parsed for m in p[2]]))
+    used = sorted({c[3] for c in chains})
+    return sorted(chains), [(e, enums[e]) for e in used]
+
+
+def bound_chain(repo):
+    """typevar.solve dispatches on the Bound classes of value.py"""
+    tree = _parse(repo, "typevar.py")
+    fn = _find(tree, ast.FunctionDef, "solve")
+    handled = None
+    for n in ast.walk(fn):
+        if isinstance(n, ast.If):
+            node, targets, ok = n, [], True
+            while True:
+                try:
+                    t = node.test
+                    if not (isinstance(t, ast.Call) and isinstance(t.func, ast.Name) and t.func.id == "isinstance"
+                            and isinstance(t.args[0], ast.Name) and t.args[0].id == "bound"):
+                        ok = False
+                        break
+                    a = t.args[1]
+                    targets += [a.id] if isinstance(a, ast.Name) else [e.id for e in a.elts]
+                except Exception:
+                    ok = False
+                    break
+                if len(node.orelse) == 1 and isinstance(node.orelse[0], ast.If):
+                    node = node.orelse[0]
+                    continue
+                break
+            if ok and _is_raise(node.orelse) and len(targets) >= 3:
+                handled = targets
+                break
+    if handled is None:
+        raise TranslateError("typevar.py: isinstance chain over bounds in solve() not found")
+    vtree = _parse(repo, "value.py")
+    bases = {st.name: [b.id for b in st.bases if isinstance(b, ast.Name)] for st in vtree.body if isinstance(st, ast.ClassDef)}
+
+    def derives(c):
+        seen, todo = set(), [c]
+        while todo:
+            x = todo.pop()
+            for b in bases.get(x, []):
+                if b == "Bound":
+                    return True
+                if b not in seen:
+                    seen.add(b)
+                    todo.append(b)
+        return False
+
+    family = [c for c in bases if derives(c)]
+    if not family:
+        raise TranslateError("value.py: no Bound subclasses found")
+    return handled, family
+
+
 def expr_kinds():
     return sorted(c.__name__ for c in ast.expr.__subclasses__())
 
@@ -208,6 +375,12 @@ def translate(repo: str) -> str:
     h = value_hierarchy(repo)
     unwrapped, handled, else_raises = boolability_chain(repo)
     methods, generic_raises = annotation_visitor(repo)
+    subs, bounds, ctx_lines = show_error_shape(repo)
+    chains, enums = enum_chains(repo)
+    bhandled, bfamily = bound_chain(repo)
+    chain_rows = ";\n".join(f"  ({_s(f)}, {_s(fn)}, {_s(subj)}, {_s(e)}, {_sl(ms)})" for f, fn, subj, e, ms in chains)
+    enum_rows = "; ".join(f"({_s(e)}, {_sl(ms)})" for e, ms in enums)
+    sub_rows = "; ".join(f"({_s(i)}, {_s(g)})" for i, g in subs)
     rows = ";\n".join(f"  ({_s(c)}, {_sl(a)})" for c, a in h)
     return (
         "(* GENERATED by harness/translate/total.py from pyanalyze/{error_code,value,boolability,annotations}.py -- do not edit *)\n"
@@ -219,7 +392,14 @@ def translate(repo: str) -> str:
         f"Definition boolability_else_raises : bool := {'true' if else_raises else 'false'}.\n\n"
         f"Definition annotation_visitor_methods : list string := {_sl(methods)}%list.\n"
         f"Definition annotation_generic_raises : bool := {'true' if generic_raises else 'false'}.\n"
-        f"Definition expr_kinds : list string := {_sl(expr_kinds())}%list.\n"
+        f"Definition expr_kinds : list string := {_sl(expr_kinds())}%list.\n\n"
+        f"Definition show_error_subscripts : list (string * string) := [{sub_rows}]%list.\n"
+        f"Definition show_error_context_bounds : string * string := ({_s(bounds[0])}, {_s(bounds[1])}).\n"
+        f"Definition show_error_context_lines : nat := {ctx_lines}.\n\n"
+        f"Definition enum_members : list (string * list string) := [{enum_rows}]%list.\n"
+        f"Definition enum_chains : list (string * string * string * string * list string) := [\n{chain_rows}\n]%list.\n"
+        f"Definition bound_chain_handled : list string := {_sl(bhandled)}%list.\n"
+        f"Definition bound_family : list string := {_sl(bfamily)}%list.\n"
     )
 
 
